@@ -163,6 +163,158 @@ Definition expected_rt_reset_to_standby : list tsk := [
   TkDo "r.tunnelConnected.Store(false)";
   TkDo "tmuxRefreshClient()"].
 
+(* ---- the relay's handshake window: who parks what, who writes where (Model/TunnelRelay.v: rt_hs, RLInband, RLHsRead, RLHs) ---- *)
+
+Definition expected_rt_add_handshake_buffer : list tsk := [
+  TkDo "r.bufferLock.Lock()";
+  TkDefer "r.bufferLock.Unlock()";
+  TkDo "status := r.relayStatus.Load()";
+  TkIf "status != kRelayHandshaking || !tunnel && r.tunnelConnected.Load()" [                       (* RLInband / RLPump: parked only while handshaking, and in-band bytes only while tunnelConnected is false *)
+    TkDo "return status, false"] [];
+  TkDo "buffer.addBuffer(data)";
+  TkDo "return status, true"].
+
+Definition expected_rt_flush_handshake_buffer : list tsk := [
+  TkDo "r.bufferLock.Lock()";
+  TkDefer "r.bufferLock.Unlock()";
+  TkFor [
+    TkDo "buf := r.stdinBuffer.popBuffer()";
+    TkIf "buf == nil" [
+      TkDo "break"] [];
+    TkIf "t := r.tunnelRelay.Load(); t != nil && r.tunnelConnected.Load()" [                        (* HsFlushIn / HsFlushOut: rt_route *)
+      TkDo "t.clientBufChan <- buf"] [
+      TkDo "r.osStdinChan <- buf"]];
+  TkFor [
+    TkDo "buf := r.stdoutBuffer.popBuffer()";
+    TkIf "buf == nil" [
+      TkDo "break"] [];
+    TkIf "t := r.tunnelRelay.Load(); t != nil && r.tunnelConnected.Load()" [                        (* HsFlushIn / HsFlushOut: rt_route *)
+      TkDo "t.serverBufChan <- buf"] [
+      TkIf "confirm" [
+        TkDo "r.bypassTmuxChan <- buf"] [
+        TkDo "r.osStdoutChan <- buf"]]];
+  TkIf "confirm" [
+    TkDo "r.relayStatus.Store(kRelayTransferring)"] [                                               (* HsFlushEnd true *)
+    TkDo "r.resetToStandby(kRelayHandshaking)"]].                                                   (* HsFlushEnd false *)
+
+Definition expected_rt_send_string_to_client : list tsk := [
+  TkDo "newline := ""\n""";
+  TkIf "(r.clientIsWindows || r.trigger.winServer) && !r.tunnelConnected.Load()" [
+    TkDo "newline = ""!\n"""] [];
+  TkDo "buffer := []byte(fmt.Sprintf(""#%s:%s%s"", typ, encodeString(str), newline))";
+  TkIf "t := r.tunnelRelay.Load(); t != nil && r.tunnelConnected.Load()" [                          (* HsSendAct / HsSendCfg / HsErr1 / HsErr2: rt_route *)
+    TkDo "t.serverBufChan <- buffer"] [
+    TkDo "r.bypassTmuxChan <- buffer"];
+  TkDo "return nil"].
+
+Definition expected_rt_send_string_to_server : list tsk := [
+  TkDo "newline := ""\n""";
+  TkIf "r.trigger.winServer && (!r.tunnelConnected.Load() || typ == ""ACT"")" [
+    TkDo "newline = ""!\n"""] [];
+  TkDo "buffer := []byte(fmt.Sprintf(""#%s:%s%s"", typ, encodeString(str), newline))";
+  TkIf "t := r.tunnelRelay.Load(); t != nil && r.tunnelConnected.Load()" [                          (* HsSendAct / HsSendCfg / HsErr1 / HsErr2: rt_route *)
+    TkDo "t.clientBufChan <- buffer"] [
+    TkDo "r.osStdinChan <- buffer"];
+  TkDo "return nil"].
+
+Definition expected_rt_send_error : list tsk := [
+  TkDo "_ = r.sendStringToClient(""FAIL"", err.Error())";
+  TkDo "_ = r.sendStringToServer(""FAIL"", err.Error())"].
+
+Definition expected_rt_handshake : list tsk := [
+  TkDo "confirm := false";
+  TkDo "var err error = nil";
+  TkDefer "func() { if err != nil { r.sendError(err) } r.flushHandshakeBuffer(confirm) }()";
+  TkDo "action, err := r.recvAction()";                                                             (* HsRecvAct: RLHsRead *)
+  TkIf "err != nil" [
+    TkDo "err = simpleTrzszError(""Relay recv action error: %v"", err)";
+    TkReturn] [];
+  TkDo "r.tunnelConnected.Store(action.TunnelConnected)";                                           (* HsStore *)
+  TkDo "r.clientIsWindows = action.Newline == ""!\n""";
+  TkIf "!action.TunnelConnected" [
+    TkDo "action.SupportBinary = false"] [];
+  TkIf "action.Protocol > kProtocolVersion" [
+    TkDo "action.Protocol = kProtocolVersion"] [];
+  TkIf "e := r.sendAction(action); e != nil" [                                                      (* HsSendAct *)
+    TkDo "err = simpleTrzszError(""Relay send action error: %v"", e)";
+    TkReturn] [];
+  TkIf "!action.Confirm" [
+    TkReturn] [];
+  TkDo "config, err := r.recvConfig()";                                                             (* HsRecvCfg: RLHsRead *)
+  TkIf "err != nil" [
+    TkDo "err = simpleTrzszError(""Relay recv config error: %v"", err)";
+    TkReturn] [];
+  TkIf "r.tmuxMode == tmuxNormalMode" [
+    TkDo "config.TmuxOutputJunk = true"] [];
+  TkIf "config.TmuxPaneColumns <= 0 && r.tmuxPaneWidth > 0" [
+    TkDo "config.TmuxPaneColumns = r.tmuxPaneWidth"] [];
+  TkIf "e := r.sendConfig(config); e != nil" [                                                      (* HsSendCfg *)
+    TkDo "err = simpleTrzszError(""Relay send config error: %v"", e)";
+    TkReturn] [];
+  TkDo "confirm = true"].
+
+Definition expected_rt_relay_wrap_input : list tsk := [
+  TkDefer "close(r.osStdinChan)";
+  TkFor [
+    TkDo "buffer := make([]byte, 32*1024)";
+    TkDo "n, err := r.clientIn.Read(buffer)";
+    TkIf "n > 0" [
+      TkDo "buf := buffer[:n]";
+      TkIf "r.logger != nil" [
+        TkDo "r.logger.writeTraceLog(buf, ""stdin"")"] [];
+      TkDo "status := r.relayStatus.Load()";
+      TkIf "status == kRelayHandshaking" [
+        TkDo "var ok bool";
+        TkDo "status, ok = r.addHandshakeBuffer(r.stdinBuffer, buf, false)";                        (* RLInband RdIn *)
+        TkIf "ok" [
+          TkDo "continue"] []] [];
+      TkDo "r.osStdinChan <- buf";
+      TkIf "status == kRelayTransferring" [
+        TkIf "len(buf) == 1 && buf[0] == '\x03'" [
+          TkDo "r.resetToStandby(kRelayTransferring)"] [TkIf "bytes.Contains(buf, []byte(""#EXIT:""))" [
+            TkDo "r.resetToStandby(kRelayTransferring)"] [TkIf "bytes.Contains(buf, []byte(""#FAIL:"")) || bytes.Contains(buf, []byte(""#fail:""))" [
+              TkDo "r.resetToStandby(kRelayTransferring)"] []]]] []] [];
+    TkIf "err == io.EOF" [
+      TkIf "isRunningOnWindows()" [
+        TkDo "r.osStdinChan <- []byte{0x1A}";
+        TkDo "continue"] [];
+      TkDo "break"] []]].
+
+Definition expected_rt_relay_wrap_output : list tsk := [
+  TkDefer "close(r.osStdoutChan)";
+  TkIf "r.bypassTmuxChan != r.osStdoutChan" [
+    TkDefer "close(r.bypassTmuxChan)"] [];
+  TkDo "detector := newTrzszDetector(true, true)";
+  TkFor [
+    TkDo "buffer := make([]byte, 32*1024)";
+    TkDo "n, err := r.serverOut.Read(buffer)";
+    TkIf "n > 0" [
+      TkDo "buf := buffer[:n]";
+      TkIf "r.logger != nil" [
+        TkDo "buf = r.logger.writeTraceLog(buf, ""svrout"")"] [];
+      TkDo "status := r.relayStatus.Load()";
+      TkIf "status == kRelayHandshaking" [
+        TkDo "var ok bool";
+        TkDo "status, ok = r.addHandshakeBuffer(r.stdoutBuffer, buf, false)";                       (* RLInband RdOut *)
+        TkIf "ok" [
+          TkDo "continue"] []] [];
+      TkIf "status == kRelayTransferring" [
+        TkDo "r.bypassTmuxChan <- buf";
+        TkIf "bytes.Contains(buf, []byte(""#EXIT:""))" [
+          TkDo "r.resetToStandby(kRelayTransferring)"] [TkIf "bytes.Contains(buf, []byte(""#FAIL:"")) || bytes.Contains(buf, []byte(""#fail:""))" [
+            TkDo "r.resetToStandby(kRelayTransferring)"] []];
+        TkDo "continue"] [];
+      TkDo "var trigger *trzszTrigger";
+      TkDo "buf, trigger = detector.detectTrzsz(buf, r.tunnelConnector.Load() != nil)";
+      TkIf "trigger != nil" [
+        TkDo "r.relayStatus.Store(kRelayHandshaking)";
+        TkDo "r.trigger = trigger";
+        TkDo "buf = r.listenForTunnel(buf)";
+        TkDo "go r.handshake()"] [];
+      TkDo "r.osStdoutChan <- buf"] [];
+    TkIf "err == io.EOF" [
+      TkDo "break"] []]].
+
 Definition expected_rt_sites_bufchan_send : list string := [
   "TrzszRelay.flushHandshakeBuffer: t.clientBufChan <- buf [if t := r.tunnelRelay.Load(); t != nil && r.tunnelConnected.Load()]";
   "TrzszRelay.flushHandshakeBuffer: t.serverBufChan <- buf [if t := r.tunnelRelay.Load(); t != nil && r.tunnelConnected.Load()]";
